@@ -1,12 +1,12 @@
 // Replay of a solver counterexample for property C06, harness vlq_roundtrip_full
 // (package sourcemap-writer, harness file kv/harness/sourcemap_writer/vlq_h.rs).
 // Re-run: /verif/bin/check C06 --replay /verif/replays/C06/vlq_roundtrip_full.rs
-// Failing check(s): "C06: decode(encode(n)) == n"
+// Failing check: assertion ""C06: decode(encode(n)) == n""
 #[test]
-fn kani_concrete_playback_vlq_roundtrip_full_9117827862464416623() {
+fn kani_concrete_playback_vlq_roundtrip_full_17640925101298956203() {
     let concrete_vals: Vec<Vec<u8>> = vec![
-        // -9223372036854775802
-        vec![6, 0, 0, 0, 0, 0, 0, 128],
+        // 16133
+        vec![5, 63, 0, 0, 0, 0, 0, 0],
     ];
     kani::concrete_playback_run(concrete_vals, vlq_roundtrip_full);
 }
